@@ -295,6 +295,8 @@ def profile(kind: str):
     if kind == "incore":
         return P(max_stmts=6, functions=False, for_list=False, index_lists=False, dead_loops=False,
                  bool_ops=True)
+    if kind == "incoren":
+        return P(max_stmts=5, functions=True, max_funcs=4, for_list=False, index_lists=False, dead_loops=False, bool_ops=True)
     if kind == "incoref":
         return P(max_stmts=5, functions=True, max_funcs=3, leaf_functions=True, for_list=False, index_lists=False, dead_loops=False, bool_ops=True)
     if kind == "tco0":
